@@ -70,11 +70,20 @@ def commute(r, t):
     if isinstance(t, Op):
         l, rr = commute(r, t.l), commute(r, t.r)
         return Op(t.op, rr, l) if r.coin(60) else Op(t.op, l, rr)
+    if isinstance(t, Leaf) and t.name == "items_contain" and len(t.kwargs) >= 2 and r.coin(60):
+        # the same definition with its keyword arguments written in another order
+        return t.replace(kwargs={k: t.kwargs[k] for k in reversed(list(t.kwargs))})
     return t
 
 
 def change_leaf(r, l):
     c = r.pct()
+    if l.name == "items_contain" and l.kwargs and c < 50:
+        # rename one keyword (the item key), keeping its value
+        kw = dict(l.kwargs)
+        k = r.choice(list(kw))
+        nk = r.choice([x for x in ["a", "b", "abc", "c", "zz"] if x not in kw])
+        return l.replace(kwargs={(nk if kk == k else kk): v for kk, v in kw.items()})
     if c < 35 and l.name in SWAPS and SWAPS[l.name] != l.name:
         return l.replace(name=SWAPS[l.name])
     if l.kwargs:
@@ -119,7 +128,7 @@ def change_part(r, p, doc_node=None):
         return Prim(change_value(r, p.v))
     c = r.pct()
     if c < 20:
-        return p.replace(label="other" if p.label != "other" else None)
+        return p.replace(label=r.choice([x for x in ("other", "second", None, "") if x != p.label]))
     if c < 40:
         nk = {"map": "mol", "list": "mol", "mol": r.choice(["map", "list"])}[p.ctype]
         return Part(nk, key=p.key if nk != "list" else None, index=p.index if nk != "map" else None, value=p.value, label=p.label)
@@ -226,6 +235,17 @@ def gen_case(r):
             y = SchemaT(rules[:i] + rules[i + 1:])
         else:
             y = SchemaT(rules + [G.rule_for(r, d, mode="typed", cast_p=0, cond_depth=1, max_len=2)])
+    y2 = None
+    if cls in ("part", "path", "rule", "cond") and r.coin(60):
+        # a second, independent change of (often) the same atom, for transitivity
+        if cls == "cond":
+            y2 = change_cond(r, x)
+        elif cls == "part":
+            y2 = change_part(r, x, d)
+        elif cls == "path":
+            y2 = change_path(r, x, d)
+        else:
+            y2 = change_rule(r, x, d)
     xc = commute_term(r, x)
     if cls == "schema" and r.coin(50):
         # also: the same rules in another order (y), with a second rule on the SAME path that
@@ -241,7 +261,7 @@ def gen_case(r):
             j = r.below(i + 1)
             perm[i], perm[j] = perm[j], perm[i]
         y = SchemaT(perm)
-    return cls, x, xc, y, probes
+    return cls, x, xc, y, probes, y2
 
 
 def build_any(cls, t):
@@ -304,7 +324,7 @@ def ref_behaviour(cls, t, probes):
 
 
 def body(case):
-    cls, x, xc, y, probes = case
+    cls, x, xc, y, probes, y2 = case
     out = Outcome()
     out.label(f"class:{cls}")
     try:
@@ -322,6 +342,11 @@ def body(case):
     objs = {"x": ox, "rebuilt": orb, "commuted": oc, "commuted-rebuilt": ocr}
     if oy is not None:
         objs["atom-changed"] = oy
+    if y2 is not None:
+        try:
+            objs["atom-changed-2"] = build_any(cls, y2)
+        except Exception:
+            pass
     names = list(objs)
     eq = {}
     try:
